@@ -58,6 +58,13 @@ impl Uint128 {
     { Uint128(self.0 - o.0) }
     #[verifier::external_body]
     pub fn to_string(&self) -> (r: String) { unimplemented!() }
+    /// `std::ops::Mul::mul` in method syntax: Uint128 * Decimal
+    #[verifier::external_body]
+    pub fn mul(self, rhs: Decimal) -> (r: Uint128)
+        requires mul_floor(self.0 as nat, rhs.0 as nat) <= u128::MAX
+        ensures r.0 == mul_floor(self.0 as nat, rhs.0 as nat)
+    { unimplemented!() }
+    pub fn gt(&self, o: &Uint128) -> (r: bool) ensures r == (self.0 > o.0) { self.0 > o.0 }
 }
 impl Default for Uint128 { fn default() -> (r: Uint128) ensures r.0 == 0 { Uint128(0) } }
 
